@@ -31,6 +31,27 @@ func observation(keys []string, b int64, dbs ...int) Client {
 }
 
 // concCmd: read-modify-write and multi-key commands on typed keys.
+// concWrite: a command that stores something whatever the key held before.
+func (g *Gen) concWrite(tk map[mType][]string) []string {
+	ks := func(t mType) string {
+		l := tk[t]
+		if len(l) == 0 {
+			return g.key()
+		}
+		return l[g.r.IntN(len(l))]
+	}
+	switch g.r.IntN(4) {
+	case 0:
+		return []string{"SET", ks(tString), g.val()}
+	case 1:
+		return []string{"RPUSH", ks(tList), g.val()}
+	case 2:
+		return []string{"HSET", ks(tHash), "f" + strconv.Itoa(g.r.IntN(3)), g.val()}
+	default:
+		return []string{"SADD", ks(tSet), g.val()}
+	}
+}
+
 func (g *Gen) concCmd(tk map[mType][]string) []string {
 	ks := func(t mType) string {
 		l := tk[t]
@@ -120,6 +141,8 @@ func genConcPlan(prop string, seed uint64, thorough bool) *Plan {
 	p := &Plan{Prop: prop, Seed: seed, Knobs: Knobs{RandSeed: int64(seed), MaxSteps: 40000}}
 	p.Knobs.Frag = g.chance(3)
 	p.Knobs.Sticky = []int{0, 30, 60, 85}[g.r.IntN(4)]
+	p.Knobs.Stall = []int{0, 20, 20, 40}[g.r.IntN(4)]
+	p.Knobs.PCT = []int{0, 0, 0, 2, 3}[g.r.IntN(5)]
 	tk := map[mType][]string{}
 	types := []mType{tString, tList, tHash, tSet}
 	for i, k := range g.keys {
@@ -144,6 +167,10 @@ func genConcPlan(prop string, seed uint64, thorough bool) *Plan {
 	if twodb {
 		p.Class = "twodb"
 	}
+	// ... variant latedb: the other database does not exist when the connections
+	// start; one or two of them create it in mid-run (SELECT, write there, come
+	// back, write here) while the others flush
+	latedb := twodb && g.chance(3)
 	// a short sequential prologue creates the typed keys
 	var pro []Item
 	for _, t := range types {
@@ -174,7 +201,7 @@ func genConcPlan(prop string, seed uint64, thorough bool) *Plan {
 		g.client = c + 1
 		items := []Item{{Op: "barrier", N: 1}}
 		n := 3 + g.r.IntN(maxOps-2)
-		if twodb && (c%2 == 1 || g.chance(3)) {
+		if twodb && !latedb && (c%2 == 1 || g.chance(3)) {
 			// several connections select the same, not yet existing database at
 			// the same time (it is created by the first SELECT that names it)
 			items = append(items, cmdItem("SELECT", strconv.Itoa(otherDb)))
@@ -185,7 +212,19 @@ func genConcPlan(prop string, seed uint64, thorough bool) *Plan {
 		if g.chance(3) {
 			owned = g.r.IntN(n)
 		}
+		visit := -1
+		if latedb && (c == 0 || g.chance(3)) {
+			visit = g.r.IntN(n)
+		}
 		for i := 0; i < n; i++ {
+			if i == visit {
+				items = append(items, cmdItem("SELECT", strconv.Itoa(otherDb)), Item{Args: bs(g.concWrite(tk)...)}, cmdItem("SELECT", "0"), Item{Args: bs(g.concWrite(tk)...)})
+				continue
+			}
+			if latedb && visit < 0 && g.chance(3) {
+				items = append(items, cmdItem("FLUSHALL"))
+				continue
+			}
 			if i == owned {
 				switch g.r.IntN(3) {
 				case 0:
@@ -223,6 +262,12 @@ func genConcPlan(prop string, seed uint64, thorough bool) *Plan {
 				items = append(items, cmdItem(g.pick("FLUSHALL", "FLUSHALL", "FLUSHDB")))
 				continue
 			}
+			if twodb && g.chance(7) {
+				// moving between the two databases in mid-run: a database may come into
+				// being while somebody else's FLUSHALL is already under way
+				items = append(items, cmdItem("SELECT", g.pick("0", strconv.Itoa(otherDb))))
+				continue
+			}
 			items = append(items, Item{Args: bs(g.concCmd(tk)...)})
 		}
 		items = append(items, Item{Op: "barrier", N: 2})
@@ -258,6 +303,8 @@ func genConcTxPlan(prop string, seed uint64, thorough bool) *Plan {
 	p := &Plan{Prop: prop, Seed: seed, Class: "conc", Knobs: Knobs{RandSeed: int64(seed), MaxSteps: 60000}}
 	p.Knobs.Frag = g.chance(4)
 	p.Knobs.Sticky = []int{0, 30, 60, 85}[g.r.IntN(4)]
+	p.Knobs.Stall = []int{0, 20, 20, 40}[g.r.IntN(4)]
+	p.Knobs.PCT = []int{0, 0, 0, 2, 3}[g.r.IntN(5)]
 	tk := map[mType][]string{}
 	types := []mType{tString, tList, tHash, tSet}
 	var pro []Item
